@@ -133,6 +133,10 @@ def stepRegistry (op : String) (args : List String) : Option String :=
     let as ← (acts.splitOn ",").mapM parseRegAction
     let (s, flags) := runSkip (init cap FV.Params.dispatchSendBlocking (List.range n)) as
     pure s!"flags={String.ofList (flags.map fun b => if b then '1' else '0')} {showRegSys s}"
+  -- a call issued while the transport's own Open / Close is stalled (C13): the lifecycle lock is not on the call
+  -- path (c13_calls_take_no_lifecycle_lock), so the call is an ordinary one against a silent peer: a Request times
+  -- out (c13_timeout_returns), a Oneway whose write is accepted returns ok
+  | "rql", [_phase, _timeout, ow] => pure (if ow == "1" then "outcome=ok" else "outcome=timedOut")
   -- free-running registry (C06): by c06_reader_never_blocks no interleaving stalls, every call is answered
   | "rfree", [k, iters] => do
     let k ← k.toNat?
